@@ -1,6 +1,7 @@
 package rules
 
 import (
+	"go/token"
 	"go/types"
 	"sort"
 	"strings"
@@ -24,6 +25,7 @@ func isFlagSetMethod(sc *ssa.Function) bool {
 func topName(f *ssa.Function) string { return engine.ShortName(topFn(f)) }
 
 func c01(c *Ctx) {
+	defer c01announceInOrder(c)
 	P, R := c.P, c.R
 	R.Explain("R01.1", "T-WRITERS: the snapshot's message list (snapMsgList.msg/idx, snapMsg.ID/UID/flags/toExpunge) is written only by newMsgList, snapMsgList.insert/insertOutOfOrder/remove/update and snapshot.setMessageFlags; in-place FlagSet mutators on a snapshot's flags occur only in Mailbox.Fetch's \\Seen branch, where the same iteration appends ItemFlags(msg.flags) to the FETCH it sends; the snapshot-level mutators are called only from the three responders' handle methods and State.UpdateMessageRemoteID; State.snap is assigned only by Select/Examine/close/NewState.")
 	R.Explain("R01.2", "T-MUST inside each Responder.handle: every nil-error return that follows a snapshot mutation returns a non-empty response built by the matching constructor (Exists/Expunge/Fetch) unless it is on the true edge of an enumerated silencer (contexts.IsClose, fetch.asSilent, FlagSet.Equals).")
@@ -496,4 +498,138 @@ func localOnly(al *ssa.Alloc) bool {
 		}
 	}
 	return true
+}
+
+// c01announceInOrder (R01.7): a released EXISTS is never older than one that is still held back.
+func c01announceInOrder(c *Ctx) {
+	P, R := c.P, c.R
+	R.Explain("R01.7", "new messages are announced in ascending UID order: in State.popResponders, under permitExpunge=false, a *targetedExists may be released (appended to the popped list) only if no *targetedExists has been held back earlier in the same pass - the release is dominated by the empty-test of the set that the hold-back edge adds to.  Otherwise the held one is later inserted in the middle of the snapshot and the sequence numbers the client knows shift without any announcement.")
+	pop := c.fn("R01.7", "internal/state.(*State).popResponders")
+	if pop == nil {
+		return
+	}
+	resFld := c.fieldOf("internal/state", "State", "res")
+	// remainder chain: appends whose result ends in the store to State.res; popped chain: appends whose result is returned
+	flowsTo := func(call *ssa.Call, sink func(ssa.Instruction) bool) bool {
+		seen := map[ssa.Value]bool{}
+		var walk func(v ssa.Value) bool
+		walk = func(v ssa.Value) bool {
+			if seen[v] {
+				return false
+			}
+			seen[v] = true
+			refs := v.Referrers()
+			if refs == nil {
+				return false
+			}
+			for _, r := range *refs {
+				if sink(r) {
+					return true
+				}
+				switch t := r.(type) {
+				case *ssa.Phi:
+					if walk(t) {
+						return true
+					}
+				case *ssa.Call:
+					if _, isApp := engine.IsBuiltinCall(t, "append"); isApp && t.Call.Args[0] == v && walk(t) {
+						return true
+					}
+				case *ssa.Store:
+					if al, ok := t.Addr.(*ssa.Alloc); ok {
+						for _, rr := range *al.Referrers() {
+							if ld, ok := rr.(*ssa.UnOp); ok && walk(ld) {
+								return true
+							}
+						}
+					}
+				}
+			}
+			return false
+		}
+		return walk(call)
+	}
+	toRes := func(in ssa.Instruction) bool {
+		st, ok := in.(*ssa.Store)
+		return ok && fieldAddrIs(st.Addr, resFld)
+	}
+	toRet := func(in ssa.Instruction) bool { _, ok := in.(*ssa.Return); return ok }
+	n := 0
+	for _, t := range typeTests(pop, "internal/state", "targetedExists") {
+		var holds, releases []*ssa.Call
+		for _, b := range pop.Blocks {
+			if !engine.EdgeDominates(t.ifb, 0, b) {
+				continue
+			}
+			for _, in := range b.Instrs {
+				call, ok := in.(*ssa.Call)
+				if !ok {
+					continue
+				}
+				if _, isApp := engine.IsBuiltinCall(call, "append"); !isApp {
+					continue
+				}
+				switch {
+				case flowsTo(call, toRes):
+					holds = append(holds, call)
+				case flowsTo(call, toRet):
+					releases = append(releases, call)
+				}
+			}
+		}
+		if len(holds) == 0 || len(releases) == 0 {
+			continue
+		}
+		n++
+		// the set(s) that record a hold: receivers of Add calls in the hold blocks
+		var sets []ssa.Value
+		for _, h := range holds {
+			for _, in := range h.Block().Instrs {
+				if call, ok := in.(*ssa.Call); ok {
+					if sc := call.Call.StaticCallee(); sc != nil && engine.BaseName(sc) == "Add" && len(call.Call.Args) > 0 {
+						sets = append(sets, call.Call.Args[0])
+					}
+				}
+			}
+		}
+		for _, rel := range releases {
+			ok := false
+			for _, fact := range engine.FactsDominating(pop, rel.Block(), P.IsOwn) {
+				bin, isBin := fact.Cond.(*ssa.BinOp)
+				if !isBin {
+					continue
+				}
+				lenOf := func(v ssa.Value) ssa.Value {
+					if call, ok := engine.IsBuiltinCall(v, "len"); ok {
+						return call.Call.Args[0]
+					}
+					return nil
+				}
+				k0 := func(v ssa.Value) bool {
+					k, ok := v.(*ssa.Const)
+					return ok && k.Value != nil && k.Value.ExactString() == "0"
+				}
+				var set ssa.Value
+				empty := false
+				switch {
+				case bin.Op == token.GTR && k0(bin.Y):
+					set, empty = lenOf(bin.X), !fact.Truth
+				case bin.Op == token.EQL && k0(bin.Y):
+					set, empty = lenOf(bin.X), fact.Truth
+				case bin.Op == token.NEQ && k0(bin.Y):
+					set, empty = lenOf(bin.X), !fact.Truth
+				}
+				if set == nil || !empty {
+					continue
+				}
+				for _, s := range sets {
+					if sameLoad(s, set) || s == set {
+						ok = true
+					}
+				}
+			}
+			R.Check(ok, "R01.7", c.name(pop)+"|exists-released-only-if-none-held", P.Pos(rel.Pos()), "release is guarded by the emptiness of the held set", "a *targetedExists can be released although an earlier one is being held back in the same pass: the held message is later inserted before it, shifting sequence numbers the client already knows")
+		}
+	}
+	R.Min("R01.7", "targetedExists hold/release decisions", n, 1)
 }
